@@ -35,6 +35,7 @@ type specEnv struct {
 	block     *ssa.BasicBlock
 	bound     int
 	pol       int // +1: formula is a proof goal, -1: an assumption, 0: unknown/mixed
+	localsAt  *ssa.BasicBlock // postconditions: program point at which non-parameter locals are read
 	errs      []string
 }
 
@@ -108,8 +109,30 @@ func (se *specEnv) lookupLocal(name string) (tv, bool) {
 	}
 	fn := se.fr.fn
 	var best *ssa.DebugRef
+	bestDepth, bestIdx := -1, -1
+	var bestPhi *ssa.Phi
+	depth := func(b *ssa.BasicBlock) int {
+		d := 0
+		for x := b.Idom(); x != nil; x = x.Idom() {
+			d++
+		}
+		return d
+	}
 	for _, b := range fn.Blocks {
-		for _, in := range b.Instrs {
+		for idx, in := range b.Instrs {
+			if phi, ok := in.(*ssa.Phi); ok && phi.Comment == name {
+				// the merged value of the variable at a join point
+				at := se.block
+				if at == nil {
+					at = se.localsAt
+				}
+				if _, has := se.fr.vals[phi]; has && (at == nil || b == at || b.Dominates(at)) {
+					if dd := depth(b); dd > bestDepth || dd == bestDepth && idx > bestIdx {
+						bestDepth, bestIdx, bestPhi, best = dd, idx, phi, nil
+					}
+				}
+				continue
+			}
 			d, ok := in.(*ssa.DebugRef)
 			if !ok || d.Object() == nil || d.Object().Name() != name {
 				continue
@@ -124,11 +147,20 @@ func (se *specEnv) lookupLocal(name string) (tv, bool) {
 					}
 				}
 			}
-			if se.block != nil && !(b == se.block || b.Dominates(se.block)) {
+			at := se.block
+			if at == nil {
+				at = se.localsAt
+			}
+			if at != nil && !(b == at || b.Dominates(at)) {
 				continue
 			}
-			best = d
+			if dd := depth(b); dd > bestDepth || dd == bestDepth && idx > bestIdx {
+				bestDepth, bestIdx, best, bestPhi = dd, idx, d, nil
+			}
 		}
+	}
+	if bestPhi != nil {
+		return tv{term: se.fr.vals[bestPhi], typ: bestPhi.Type()}, true
 	}
 	if best == nil {
 		return tv{}, false
@@ -760,6 +792,21 @@ func (se *specEnv) call(x *ast.CallExpr) tv {
 	case "off":
 		a := se.eval(x.Args[0])
 		return tv{term: fmt.Sprintf("(s_off %s)", a.term), typ: intT}
+	case "cast":
+		// cast(T, x): view term x as a value of Go type T (for results of uninterpreted spec functions and
+		// interface payloads). For a struct type T and an integer x the result denotes the object at x.
+		if !argn(2) {
+			return tv{term: "false", typ: boolT}
+		}
+		tt := se.eval(x.Args[0])
+		a := se.eval(x.Args[1])
+		if tt.typ == nil {
+			return se.fail("cast: first argument must be a type")
+		}
+		if isStruct(tt.typ) {
+			return tv{term: a.term, typ: tt.typ, isLoc: true}
+		}
+		return tv{term: a.term, typ: tt.typ}
 	case "is_elem_of":
 		// is_elem_of(p, s): pointer p points at an element of the slice of structs s
 		p, s := se.eval(x.Args[0]), se.eval(x.Args[1])
